@@ -256,6 +256,10 @@ class Ctx:
             return 0
         if self.dpos < len(self.decisions):
             c = self.decisions[self.dpos]
+            if c >= n:
+                # a forced prefix decision that does not exist at this point
+                self.no_such_branch = True
+                raise PathEnd("no such branch")
         else:
             c = 0
             self.decisions.append(0)
